@@ -197,6 +197,8 @@ class Sim:
     def __init__(self, seed: int = 0, wall_budget: int = 20) -> None:
         logging.disable(logging.CRITICAL)
         sys.unraisablehook = lambda u: None      # coroutines of dropped loops are finalised by the collector: not news
+        import warnings
+        warnings.simplefilter('ignore')          # ("coroutine ... was never awaited", "daemon did not exit in time": of dropped loops / by design)
         self.world = World(seed=seed, wall_budget=wall_budget)
         self.recorder = Recorder(lambda: self.world.now)
         self.rec = self.recorder.rec
